@@ -329,3 +329,117 @@ func c17Lifecycle(rep *kernel.Report, budget *kernel.Budget) {
 	}
 	sort.Strings(ks)
 }
+
+// ---- admission under a burst -------------------------------------------------------------------------------------
+// K clients start a query at once with a limit of L running queries; every executor goroutine is held at its first lock
+// operation, so admitted queries stay in the running table. The tables are read while they are held: never more than L
+// running, the rest waiting, nobody lost. Then the executors are released and every query must be answered.
+
+type c17cBurstJob struct {
+	Limit int `json:"limit"`
+	Burst int `json:"burst"`
+}
+
+func c17cBurstRun(w *kernel.Worker, j *c17cBurstJob, rep *kernel.Report) (*Fail, error) {
+	idx := fmt.Sprintf("c17cb%d", atomic.AddInt64(&c17cSeq, 1))
+	die := func(err error) (*Fail, error) {
+		if d, ok := err.(*kernel.Died); ok {
+			clause := "server-died"
+			if d.Timeout {
+				clause = "lifecycle-hang"
+			}
+			return &Fail{FP: "C17/" + clause + "/burst/" + d.Frame, What: fmt.Sprintf("burst %s: %s\n%s", jstr(j), d.Exit, trunc(d.Stderr, 2000))}, nil
+		}
+		return nil, err
+	}
+	if err := ingestStep(w, 0, idx, []string{fmt.Sprintf(`{"timestamp":%d,"id":"e1","a":1}`, T0), fmt.Sprintf(`{"timestamp":%d,"id":"e2","a":2}`, T0+1)}); err != nil {
+		return die(err)
+	}
+	if err := w.Call("flush", nil, nil); err != nil {
+		return die(err)
+	}
+	var base map[string]map[string]int
+	if err := w.Call("goroutines", nil, &base); err != nil {
+		return die(err)
+	}
+	zText := "* | stats count"
+	q := &Q{Index: idx, Text: zText, Start: T0 - 10, End: T0 + 1000, Size: 100}
+	var x, post []schedStep
+	for i := 0; i < j.Burst; i++ {
+		x = append(x, schedStep{Op: "bgquery", Query: q})
+		post = append(post, schedStep{Op: "bgwait", Ms: 8000})
+	}
+	x = append(x, schedStep{Op: "sleep", Ms: 250}, schedStep{Op: "tables"})
+	post = append(post, schedStep{Op: "maxrunning", Ms: 16}, schedStep{Op: "sleep", Ms: 30}, schedStep{Op: "tables"})
+	var r schedRes
+	if err := w.CallT("schedrun", map[string]interface{}{"pre": []schedStep{{Op: "maxrunning", Ms: j.Limit}}, "x": x, "y": []schedStep{}, "post": post, "pauseAt": 0,
+		"auxCreator": "RunQueryForNewPipeline", "auxHoldAll": true}, &r, 120*time.Second); err != nil {
+		return die(err)
+	}
+	rep.Eval(1)
+	rep.Transition(int64(len(x) + len(post)))
+	ctx := fmt.Sprintf("%d clients start a query at once, limit of running queries %d, executors held", j.Burst, j.Limit)
+	fs := &Fails{}
+	if len(r.X) != len(x) || len(r.Post) != len(post) {
+		return &Fail{FP: "C17/harness-burst-shape", What: ctx + ": " + jstr(r)}, nil
+	}
+	t := r.X[len(x)-1]
+	if len(t.Running) > j.Limit {
+		fs.Add("C17/admission-limit-exceeded/burst", ctx+fmt.Sprintf(": the running table holds %d queries %v (waiting %v)", len(t.Running), t.Running, t.Waiting))
+	}
+	if len(t.Running)+len(t.Waiting) != j.Burst {
+		fs.Add("C17/burst-query-unaccounted", ctx+fmt.Sprintf(": running %v + waiting %v do not add up to the %d queries started", t.Running, t.Waiting, j.Burst))
+	}
+	want := j.Limit
+	if j.Burst < want {
+		want = j.Burst
+	}
+	if len(t.Running) < want {
+		rep.Add("c_burst_slots_unused_at_snapshot", 1)
+	}
+	for i := 0; i < j.Burst; i++ {
+		b := r.Post[i]
+		ans := "not answered within 8 s after the executors were released"
+		if b.Err == "" {
+			ans = c17cAnswer(zText, b.Query)
+		}
+		rep.Outcome("c/burst/answer=" + strings.SplitN(ans, ":", 2)[0])
+		if ans != "complete" {
+			fs.Add("C17/burst-query-not-answered", ctx+fmt.Sprintf(": query %d of the burst: %s", i+1, ans))
+		}
+	}
+	active, leak, err := queryResourcesLeft(w, base)
+	if err != nil {
+		return die(err)
+	}
+	if active != 0 {
+		fs.Add("C17/running-table-not-empty/burst", ctx+fmt.Sprintf(": 5 s after every query was answered GetActiveQueryCount() = %d", active))
+	}
+	if len(leak) > 0 {
+		fs.Add("C17/goroutine-left/burst/"+leakClass(leak[0]), ctx+fmt.Sprintf(": 5 s after every query was answered these goroutines of the query packages still exist: %v", leak))
+	}
+	_ = delIndex(w, 0, idx)
+	return fs.Result(), nil
+}
+
+func c17Burst(rep *kernel.Report, budget *kernel.Budget) {
+	pool := logPool()
+	pool.RecycleEvery = 50
+	d := &Driver[c17cBurstJob]{Rep: rep, Pool: pool, Budget: budget,
+		Enumerate: func(emit func(c17cBurstJob)) {
+			maxBurst := 4
+			if rep.Tier == "thorough" {
+				maxBurst = 8
+			}
+			for l := 1; l <= 3; l++ {
+				for k := 1; k <= maxBurst; k++ {
+					emit(c17cBurstJob{Limit: l, Burst: k})
+				}
+			}
+		},
+		Run:        c17cBurstRun,
+		Key:        func(j *c17cBurstJob) string { return "burst|" + jstr(j) },
+		Nontrivial: func(j *c17cBurstJob) bool { return j.Burst > j.Limit },
+	}
+	d.Drive()
+}
